@@ -4,6 +4,14 @@ Stream `dedup`      : one two-task workflow, random sequences of deliveries (fir
                       results of every kind, duplicates, heartbeat-checker passes, rerun start requests,
                       duplicated sub-workflow results) vs Mistral.Dedup.step (Lean driver `dedup.trace`);
                       sequences of start_workflow requests carrying ids vs `dedup.startAll`.
+                      Mode `resume` of the same stream: the workflow is PAUSED while t1 is still IDLE with its
+                      start_task(first_run=True) in flight and RESUMED (Workflow.resume re-queues
+                      start_task(first_run=False, rerun=False) for the IDLE task); then the original request,
+                      the re-queued request(s) and copies of them are delivered in random orders, between
+                      results / checker passes / rerun_workflow requests, also after the task has failed
+                      (repo fix 17f326b9).  Model vs real after every delivery; monitor = the statement: a
+                      repeated start request (and the second of the two requests to start the IDLE task)
+                      changes no row and sends nothing.
 Stream `engine-dup` : generated programs; a duplicate-free run and a run of the same program/oracle/
                       schedule in which engine messages (on_action_complete, sub-workflow results,
                       start_task, start_workflow with an id, run_action requests redelivered to the executor)
@@ -347,8 +355,13 @@ def signature(msg, cls, new_msgs, before=None):
         for t in (before or {}).get('tasks', []):
             if t['ord'] == msg.get('task_ex_id'):
                 st = t['state']
-        # known for a task that is RUNNING (restarted, action in flight) or ERROR (failed again)
-        return {'kind': 'dup-start-task-existing-reschedules', 'task_state': st}
+        # known for a task that is RUNNING (restarted, action in flight; fixed by 258aaaae) or ERROR (failed
+        # again) when the request is an EXPLICIT rerun (rerun=True, rerun_workflow).  A request that is not
+        # an explicit rerun (rerun=False: re-queued on resume) must never do that (17f326b9): other signature.
+        sig = {'kind': 'dup-start-task-existing-reschedules', 'task_state': st}
+        if msg.get('rerun') is False:
+            sig['rerun'] = False
+        return sig
     return {'kind': 'dup-not-noop', 'message': msg['kind'], 'stale_read': bool(msg.get('stale_read')),
             'first_run': msg.get('first_run'), 'wf_action': msg.get('wf_action'),
             'changed': cls, 'sent': sorted(set(new_msgs))}
@@ -888,8 +901,8 @@ def corpus_cases():
 def run_chunk(ctx, n_cases, n_dedup):
     rng = ctx.rng
     if getattr(ctx, 'chunk', 0) == 0:
-        replay_witness(ctx, 'P')
-        replay_witness(ctx, 'P2')
+        for name in sorted(WITNESSES):
+            replay_witness(ctx, name)
         for c in corpus_cases():
             ctx.count('engine-dup', 'corpus')
             c = dict(c)
@@ -971,8 +984,12 @@ class DedupImpl(object):
         self.root = self.w.start_workflow('wf', {})
         drain_internal(self.w)
         self.start_msg = self.take(lambda p: p.kind == 'rpc' and p.data['method'] == 'start_task')[0]
-        self.rerun_msgs = []
+        self.rerun_msgs = []      # [(message, reset, rerun, sender)]: every start_task(first_run=False) sent for t1
+        self.sender = None        # the API call being settled: 'resume_workflow' | 'rerun_workflow'
         self.wf_msgs = []
+        self.delivered = {}       # message key ('first' | j) -> number of deliveries
+        self.hits = []            # monitor: (what, signature, detail)
+        self.last_ev = None
         self.dispatched = 0
         self.completions = 0
         self.accepts = {}
@@ -1000,7 +1017,8 @@ class DedupImpl(object):
             mine = {a['id'] for a in self.t1_actions(snap)}
             got = self.take(lambda p: p.kind == 'action' and p.data['action_ex_id'] in mine)
             self.dispatched += len(got)
-            self.rerun_msgs += [(p, p.data['kwargs']['reset']) for p in self.take(
+            self.rerun_msgs += [(p, bool(p.data['kwargs']['reset']), bool(p.data['kwargs']['rerun']), self.sender)
+                                for p in self.take(
                 lambda p: p.kind == 'rpc' and p.data['method'] == 'start_task'
                 and p.data['kwargs']['task_ex_id'] == self.t1 and p.data['kwargs']['first_run'] is False)]
             self.wf_msgs += self.take(lambda p: p.kind == 'rpc' and p.data['method'] == 'on_action_complete'
@@ -1048,57 +1066,168 @@ class DedupImpl(object):
         return {'verdict': v, 'task': {'state': ta['state'], 'actions': acts, 'dispatched': self.dispatched,
                                        'completions': self.completions}}
 
+    def wf_state(self):
+        return self.w.snapshot()['wfs'][0]['state']
+
+    def pause(self):
+        """API call pause_workflow (not a delivery of the model: the task row is not touched)"""
+        self.w.op('pause_workflow', self.root)
+        self.settle()
+
+    def resume(self):
+        """API call resume_workflow: Workflow.resume re-queues start_task(first_run=False, rerun=False) for
+        every task that is still IDLE; returns how many such requests were sent for t1"""
+        n = len(self.rerun_msgs)
+        self.sender = 'resume_workflow'
+        self.w.op('resume_workflow', self.root)
+        self.settle()
+        self.sender = None
+        return len(self.rerun_msgs) - n
+
+    def rerun_op(self, reset):
+        """API call rerun_workflow for t1 (sends start_task(first_run=False, rerun=True))"""
+        self.sender = 'rerun_workflow'
+        self.w.op('rerun_workflow', self.t1, reset=reset)
+        self.settle()
+        self.sender = None
+
+    def sig_of(self, sig, ev):
+        """a request that is not an explicit rerun - by its flag, or by its sender (re-queued by
+        resume_workflow) - is never covered by the known finding about explicit reruns"""
+        if not ev['firstRun'] and sig.get('kind') == 'dup-start-task-existing-reschedules':
+            if not ev['rerun']:
+                sig['rerun'] = False
+            if self.rerun_msgs[ev['j']][3] == 'resume_workflow':
+                sig['sender'] = 'resume_workflow'
+        return sig
+
+    def start_message(self, ev):
+        """the recorded message an event stands for + its key"""
+        if ev['firstRun']:
+            return self.start_msg, 'first'
+        return self.rerun_msgs[ev['j']][0], ev['j']
+
     def apply(self, ev):
-        """returns the observation after the event, or None when the event is not applicable"""
+        """returns the observation after the event; self.last_ev = the event as handed to the MODEL (for a start
+        request the flags first_run / rerun / reset are those of the recorded message kwargs)"""
         w = self.w
         before = w.snapshot()
         nerr = len(w.errors)
         k = ev['op']
-        if k == 'startTask' and ev['firstRun']:
-            w._deliver_rpc(copy_pending(self.start_msg))
-        elif k == 'startTask':
-            p, reset = self.rerun_msgs[ev['j']]
+        sent0 = (w._seq, self.dispatched, len(self.rerun_msgs), len(self.wf_msgs))
+        p = key = None
+        missing = False
+        if k == 'startTask':
+            p, key = self.start_message(ev)
+            kw = p.data['kwargs']
+            ev = dict(ev, firstRun=bool(kw['first_run']), rerun=bool(kw['rerun']), reset=bool(kw['reset']))
             w._deliver_rpc(copy_pending(p))
         elif k == 'result':
             acts = self.t1_actions(before)
             w.log.append(['result', ev['a'], ev['kind'], ev['tag']])
-            w._call('rpc:on_action_complete', w.engine.on_action_complete, acts[ev['a']]['id'],
-                    _result(ev['kind'], ev['tag']))
+            if ev['a'] >= len(acts):
+                # (fixed witnesses only: the action execution the event is about was never created - the real
+                # engine has nothing to deliver to; the model answers notFound)
+                missing = True
+            else:
+                w._call('rpc:on_action_complete', w.engine.on_action_complete, acts[ev['a']]['id'],
+                        _result(ev['kind'], ev['tag']))
         elif k == 'wfResult':
             w._deliver_rpc(copy_pending(self.wf_msgs[0]))
         elif k == 'expiry':
             w.tick(3600 + 330)
             run_checker(w)
+        self.last_ev = ev
         self.settle()
         after = w.snapshot()
-        return self.observe(before, after, w.errors[nerr:])
+        if p is not None:
+            self.monitor_start(ev, p, key, before, after, sent0)
+        o = self.observe(before, after, w.errors[nerr:])
+        if missing:
+            o['verdict'] = 'notFound'
+        return o
+
+    def monitor_start(self, ev, p, key, before, after, sent0):
+        """The statement, read on the real rows: the same start-task request delivered again leaves every
+        committed row unchanged and sends nothing.  Also read for the SECOND of the two requests to start the
+        IDLE task (the original first_run=True request and the one re-queued on resume, whichever arrives
+        later): the task was started by the other one."""
+        w = self.w
+        n_before = self.delivered.get(key, 0)
+        self.delivered[key] = n_before + 1
+        # the requests to start the IDLE task: the original one and those re-queued by resume_workflow
+        def starter(k):
+            return k == 'first' or self.rerun_msgs[k][3] == 'resume_workflow'
+        other_started = starter(key) and any(n > 0 and starter(k) for k, n in self.delivered.items() if k != key)
+        if n_before == 0 and not other_started:
+            return
+        b, a = rows(before), rows(after)
+        new_kinds = (['run_action'] * (self.dispatched - sent0[1]) +
+                     ['start_task'] * (len(self.rerun_msgs) - sent0[2]) +
+                     ['on_action_complete'] * (len(self.wf_msgs) - sent0[3]) +
+                     [('run_action' if x.kind == 'action' else x.data['method']) for x in messages(w)
+                      if x.seq > sent0[0]])
+        if b == a and not new_kinds:
+            return
+        cls = diff_class(b, a)
+        msg = describe_msg(w, p)
+        if n_before > 0:
+            sig = self.sig_of(signature(msg, cls, new_kinds, b), ev)
+            what = 'repeated delivery of %s is not a no-op' % json.dumps(msg, sort_keys=True)
+        else:
+            st = self.t1_row(before)['state']
+            sig = {'kind': 'second-start-request-not-noop', 'first_run': msg.get('first_run'),
+                   'rerun': msg.get('rerun'), 'task_state': st}
+            if key != 'first':
+                sig['sender'] = 'resume_workflow'
+            what = ('request %s to start a task that the other start request has already started (task %s) is '
+                    'not a no-op' % (json.dumps(msg, sort_keys=True), st))
+        self.hits.append(('%s: changed=%s sent=%s' % (what, cls, new_kinds), sig,
+                          {'message': msg, 'changed': cls, 'sent': new_kinds}))
 
 
-def gen_dedup_events(rng, impl, n):
-    """generates and applies events one at a time (what is possible depends on the real state)"""
+def gen_dedup_events(rng, impl, n, mode='classic'):
+    """generates and applies events one at a time (what is possible depends on the real state).
+    mode 'resume': first the workflow is paused and resumed while t1 is IDLE (once or twice), which re-queues
+    start_task(first_run=False, rerun=False) for t1; later pause / resume again at random points."""
     evs, obs = [], []
     tag = 2
+    ops = []
+    if mode == 'resume':
+        for _ in range(rng.choice([1, 1, 2])):
+            impl.pause()
+            got = impl.resume()
+            ops.append(['pause+resume', got])
     for _ in range(n):
         snap = impl.w.snapshot()
         t1 = impl.t1_row(snap)
         nact = len(impl.t1_actions(snap))
+        wf_state = snap['wfs'][0]['state']
         choices = ['start1', 'start1']
         if nact:
             choices += ['result'] * 5 + ['expiry']
-        if t1['state'] == 'ERROR' and snap['wfs'][0]['state'] == 'ERROR' and len(impl.rerun_msgs) < 2:
+        if t1['state'] == 'ERROR' and wf_state == 'ERROR' and len([m for m in impl.rerun_msgs if m[2]]) < 2:
             choices += ['rerun'] * 3
         if impl.rerun_msgs:
-            choices += ['startRerun'] * 3
+            choices += ['startRerun'] * (5 if mode == 'resume' else 3)
+        if mode == 'resume' and wf_state in ('RUNNING', 'PAUSED'):
+            choices += ['toggle']
         c = rng.choice(choices)
         if c == 'rerun':
-            impl.w.op('rerun_workflow', impl.t1, reset=rng.random() < 0.5)
-            impl.settle()
+            impl.rerun_op(rng.random() < 0.5)
+            ops.append(['rerun', len(evs)])
+            continue
+        if c == 'toggle':
+            if wf_state == 'RUNNING':
+                impl.pause()
+                ops.append(['pause', len(evs)])
+            else:
+                ops.append(['resume', len(evs), impl.resume()])
             continue
         if c == 'start1':
-            ev = {'op': 'startTask', 'firstRun': True, 'reset': False}
+            ev = {'op': 'startTask', 'firstRun': True}
         elif c == 'startRerun':
-            j = rng.randrange(len(impl.rerun_msgs))
-            ev = {'op': 'startTask', 'firstRun': False, 'reset': bool(impl.rerun_msgs[j][1]), 'j': j}
+            ev = {'op': 'startTask', 'firstRun': False, 'j': rng.randrange(len(impl.rerun_msgs))}
         elif c == 'expiry':
             ev = {'op': 'expiry'}
         else:
@@ -1106,9 +1235,24 @@ def gen_dedup_events(rng, impl, n):
             ev = {'op': 'result', 'a': rng.randrange(nact), 'kind': rng.choice(['ok', 'ok', 'error', 'error', 'cancel']),
                   'tag': tag}
         o = impl.apply(ev)
-        evs.append(ev)
+        evs.append(impl.last_ev)
         obs.append(o)
+    impl.ops = ops
     return evs, obs
+
+
+def ev_kind(e):
+    if e['op'] != 'startTask':
+        return e['op']
+    if e['firstRun']:
+        return 'startTask'
+    return 'startTask:rerun' if e['rerun'] else 'startTask:resume'
+
+
+def report_hits(ctx, impl, replay):
+    for what, sig, detail in impl.hits:
+        ctx.count('dedup', 'hit:' + sig['kind'])
+        ctx.violation('dedup: ' + what, dict(replay, hit=detail), sig)
 
 
 def run_dedup(ctx, n):
@@ -1119,23 +1263,52 @@ def run_dedup(ctx, n):
         if rng.random() < 0.2:
             run_dedup_sub(ctx, drv, rng, seed)
             continue
-        impl = DedupImpl(seed)
-        evs, obs = gen_dedup_events(rng, impl, rng.randint(3, 12))
-        mo = drv.call('dedup.trace', {'deliveries': evs})
-        mo = [{'verdict': {'accepted': 'ok', 'noop': 'ok'}.get(x['verdict'], x['verdict']), 'task': x['task']}
-              for x in mo] if isinstance(mo, list) else mo
-        kinds = [e['op'] + (':rerun' if e['op'] == 'startTask' and not e['firstRun'] else '') for e in evs]
-        for k in kinds:
-            ctx.count('dedup', 'ev:' + k)
-        for o in obs:
-            ctx.count('dedup', 'verdict:' + o['verdict'])
-        ctx.evaluated('dedup', evs, nontrivial=any(o['verdict'] in ('rejected', 'refused') for o in obs)
-                      or kinds.count('startTask') > 1 or 'startTask:rerun' in kinds)
-        if mo != obs:
-            ctx.disagree('dedup', {'events': evs, 'seed': seed}, mo, obs)
-        elif rng.random() < 0.02:
-            ctx.sample({'stream': 'dedup', 'events': evs, 'last': obs[-1] if obs else None})
+        mode = 'resume' if rng.random() < RESUME_SHARE else 'classic'
+        n_ev = rng.randint(3, 12)
+        ev_seed = rng.getrandbits(32)
+        run_dedup_case(ctx, drv, seed, mode, n_ev, ev_seed, sample=rng.random() < 0.02)
     run_start_ids(ctx, drv, rng, max(2, n // 4))
+
+
+RESUME_SHARE = 0.45
+
+
+def run_dedup_case(ctx, drv, seed, mode, n_ev, ev_seed, sample=False):
+    """one random delivery sequence on the two-task workflow, model vs real + monitor; reproducible from
+    (seed, mode, n_ev, ev_seed)"""
+    impl = DedupImpl(seed)
+    evs, obs = gen_dedup_events(random.Random(ev_seed), impl, n_ev, mode)
+    replay = {'stream': 'dedup', 'case': {'seed': seed, 'mode': mode, 'n_ev': n_ev, 'ev_seed': ev_seed},
+              'events': evs, 'ops': impl.ops}
+    ctx.count('dedup', 'mode:' + mode)
+    if mode == 'resume':
+        requeued = [m for m in impl.rerun_msgs if m[3] == 'resume_workflow']
+        ctx.count('dedup', 'resume:requeued-requests', len(requeued))
+        if not requeued or any((m[1], m[2]) != (True, False) for m in requeued):
+            # Workflow.resume must re-queue RunExistingTask(reset=True, rerun=False) for the IDLE task
+            ctx.disagree('dedup', replay['case'], 'resume re-queues start_task(first_run=False, rerun=False, '
+                         'reset=True) for the IDLE task', [list(m[1:]) for m in impl.rerun_msgs])
+    mo = drv.call('dedup.trace', {'deliveries': evs})
+    mo = [{'verdict': {'accepted': 'ok', 'noop': 'ok'}.get(x['verdict'], x['verdict']), 'task': x['task']}
+          for x in mo] if isinstance(mo, list) else mo
+    kinds = [ev_kind(e) for e in evs]
+    for k in kinds:
+        ctx.count('dedup', 'ev:' + k)
+    for o in obs:
+        ctx.count('dedup', 'verdict:' + o['verdict'])
+    # a start request delivered when the task had already been started / had completed
+    for e, o, prev in zip(evs, obs, [None] + obs[:-1]):
+        if e['op'] == 'startTask' and not e['firstRun'] and prev is not None:
+            ctx.count('dedup', 'run-existing[%s]@%s' % ('rerun' if e['rerun'] else 'resume',
+                                                         prev['task']['state']))
+    starts = [k for k in kinds if k.startswith('startTask')]
+    ctx.evaluated('dedup', [mode, evs], nontrivial=any(o['verdict'] in ('rejected', 'refused') for o in obs)
+                  or len(starts) > 1 or 'startTask:rerun' in kinds or 'startTask:resume' in kinds)
+    report_hits(ctx, impl, replay)
+    if mo != obs:
+        ctx.disagree('dedup', dict(replay['case'], events=evs), mo, obs)
+    elif sample:
+        ctx.sample({'stream': 'dedup', 'mode': mode, 'events': evs, 'last': obs[-1] if obs else None})
 
 
 def run_dedup_sub(ctx, drv, rng, seed):
@@ -1143,7 +1316,7 @@ def run_dedup_sub(ctx, drv, rng, seed):
     impl = DedupImpl(seed, sub=True)
     kind = rng.choice(['ok', 'ok', 'error'])
     impl.sub_oracle = er.Oracle({'s0:0': ['error']} if kind == 'error' else {})
-    impl.apply({'op': 'startTask', 'firstRun': True, 'reset': False})
+    impl.apply({'op': 'startTask', 'firstRun': True})
     if not impl.wf_msgs:
         ctx.disagree('dedup', {'sub': True, 'seed': seed}, 'sub-workflow result message expected', 'none sent')
         return
@@ -1209,22 +1382,36 @@ def run_start_ids_fixed(ctx, ids, seed=0, drains=None):
 
 
 # ================================================================================ witnesses about first_run=False start requests
+# (the flags rerun / reset of a start event are taken from the recorded message kwargs by DedupImpl.apply)
+_FIRST = {'op': 'startTask', 'firstRun': True}
+_EXISTING = {'op': 'startTask', 'firstRun': False, 'j': 0}
 # (1) the FORMER counter-witness (before repo fix 258aaaae): the duplicate arrives while the action of the
 #     first delivery is running.  Now a regression that must PASS (Props.C06.dup_start_task_rerun_noop).
-WITNESS_P = [{'op': 'startTask', 'firstRun': True, 'reset': False},
+WITNESS_P = [_FIRST,
              {'op': 'result', 'a': 0, 'kind': 'error', 'tag': 3},
              'rerun',
-             {'op': 'startTask', 'firstRun': False, 'reset': False, 'j': 0},
-             {'op': 'startTask', 'firstRun': False, 'reset': False, 'j': 0}]
-# (2) the counter-witness of Props.C06.dup_start_task_rerun_full_fails: the restarted task fails again, then
-#     the same request arrives once more.
-WITNESS_P2 = [{'op': 'startTask', 'firstRun': True, 'reset': False},
+             _EXISTING,
+             _EXISTING]
+# (2) the counter-witness of Props.C06.dup_start_task_rerun_full_fails (explicit rerun, rerun=True): the
+#     restarted task fails again, then the same request arrives once more.
+WITNESS_P2 = [_FIRST,
               {'op': 'result', 'a': 0, 'kind': 'error', 'tag': 3},
               'rerun',
-              {'op': 'startTask', 'firstRun': False, 'reset': False, 'j': 0},
+              _EXISTING,
               {'op': 'result', 'a': 1, 'kind': 'error', 'tag': 4},
-              {'op': 'startTask', 'firstRun': False, 'reset': False, 'j': 0}]
-WITNESSES = {'P': WITNESS_P, 'P2': WITNESS_P2}
+              _EXISTING]
+# (3) repo fix 17f326b9, regressions that must PASS (Props.C06.dup_run_existing_noop,
+#     first_run_and_resume_any_order): the workflow is paused and resumed while t1 is IDLE, so that the
+#     original request and the re-queued one (first_run=False, rerun=False) are both in flight.
+#     R1: the re-queued request starts the task, the task fails, a copy of the re-queued request arrives.
+#     R2: the original request starts the task, the task fails, the re-queued request arrives (the scenario
+#         of the fix).   R3: the other order.   R4: as R2 with the action CANCELLED instead of failed.
+WITNESS_R1 = ['pause', 'resume', _EXISTING, {'op': 'result', 'a': 0, 'kind': 'error', 'tag': 3}, _EXISTING]
+WITNESS_R2 = ['pause', 'resume', _FIRST, {'op': 'result', 'a': 0, 'kind': 'error', 'tag': 3}, _EXISTING]
+WITNESS_R3 = ['pause', 'resume', _EXISTING, {'op': 'result', 'a': 0, 'kind': 'cancel', 'tag': 3}, _FIRST]
+WITNESS_R4 = ['pause', 'resume', _FIRST, {'op': 'result', 'a': 0, 'kind': 'cancel', 'tag': 3}, _EXISTING]
+WITNESSES = {'P': WITNESS_P, 'P2': WITNESS_P2, 'R1': WITNESS_R1, 'R2': WITNESS_R2, 'R3': WITNESS_R3,
+             'R4': WITNESS_R4}
 
 
 def replay_witness(ctx, name):
@@ -1234,11 +1421,19 @@ def replay_witness(ctx, name):
     evs, obs = [], []
     for ev in WITNESSES[name]:
         if ev == 'rerun':
-            impl.w.op('rerun_workflow', impl.t1, reset=False)
-            impl.settle()
+            impl.rerun_op(False)
+            continue
+        if ev == 'pause':
+            impl.pause()
+            continue
+        if ev == 'resume':
+            if impl.resume() != 1:
+                ctx.disagree('dedup', {'witness': name}, 'resume re-queues one start_task(first_run=False) for '
+                             'the IDLE task', len(impl.rerun_msgs))
+                return False
             continue
         obs.append(impl.apply(ev))
-        evs.append(ev)
+        evs.append(impl.last_ev)
     mo = ctx.driver().call('dedup.trace', {'deliveries': evs})
     mo = [{'verdict': {'accepted': 'ok', 'noop': 'ok'}.get(x['verdict'], x['verdict']), 'task': x['task']} for x in mo]
     ctx.evaluated('dedup', ['witness-' + name], nontrivial=True)
@@ -1247,12 +1442,16 @@ def replay_witness(ctx, name):
         ctx.disagree('dedup', {'events': evs, 'witness': name}, mo, obs)
     last, prev = obs[-1]['task'], obs[-2]['task']
     if last['dispatched'] > prev['dispatched'] or len(last['actions']) > len(prev['actions']):
-        ctx.violation('a start_task(first_run=False) request delivered again (task %s) dispatches the action again '
-                      '(dispatched %d -> %d, action executions %d -> %d)' % (
-                          prev['state'], prev['dispatched'], last['dispatched'], len(prev['actions']),
-                          len(last['actions'])),
-                      {'stream': 'dedup', 'witness': name, 'events': WITNESSES[name], 'observed': obs},
-                      {'kind': 'dup-start-task-existing-reschedules', 'task_state': prev['state']})
+        e = evs[-1]
+        sig = impl.sig_of({'kind': 'dup-start-task-existing-reschedules', 'task_state': prev['state']}, e)
+        if e['firstRun']:
+            sig = {'kind': 'second-start-request-not-noop', 'first_run': True, 'rerun': e['rerun'],
+                   'task_state': prev['state']}
+        ctx.violation('a start_task(first_run=%s, rerun=%s) request delivered again / after the other start request '
+                      '(task %s) dispatches the action again (dispatched %d -> %d, action executions %d -> %d)' % (
+                          e['firstRun'], e['rerun'], prev['state'], prev['dispatched'], last['dispatched'],
+                          len(prev['actions']), len(last['actions'])),
+                      {'stream': 'dedup', 'witness': name, 'events': evs, 'observed': obs}, sig)
         return True
     return False
 
